@@ -18,7 +18,7 @@ import tempfile
 ID = "C34"
 LEVEL = "model_checking"
 RULE = (
-    "S: runs = start(payload) + every sequence of 0..3 middle documents over {descriptor,event} x 4 payloads (quick: 585 sequences) / "
+    "S: runs = start(payload) + every sequence of 0..3 middle documents over {descriptor,event} x 3 payloads (quick: 259 sequences) / "
     "x 8 payloads (thorough: 4369 sequences) + stop(payload), start/stop payload pairs: 4 (quick) / 8 (thorough); each run through 3 JSONWriter configurations (derived name; "
     "explicit name, absent; explicit name over a longer pre-existing file) and 6 JSONLinesWriter configurations (explicit name x "
     "{absent, empty, 1 line, 2 lines}; derived name x {absent, 1 pre-existing line}), then a second run (new uid, middle reversed) "
@@ -45,7 +45,7 @@ PAYLOADS = [
     {"i": -12, "big": 2**63, "f": 1.5e-7, "z": 0.0, "neg": -0.0, "e": 1e300},
 ]
 MIDDLE_NAMES = ("descriptor", "event")
-PAIRS_QUICK = [(0, 4), (2, 1), (4, 3), (6, 7)]
+PAIRS_QUICK = [(0, 5), (2, 1), (4, 3), (6, 7)]
 PAIRS_THOROUGH = [(i, (i + 3) % 8) for i in range(8)]
 
 JW_CONFIGS = ["derived", "explicit-absent", "explicit-over-existing"]
@@ -56,7 +56,7 @@ PRE_LINES = ['{"name": "old", "doc": {"uid": "old-1", "s": "x\\ny"}}\n', '{"name
 def describe(tier):
     return {
         "bounds": {
-            "middle_docs": "0..3 over 8 symbols" if tier == "quick" else "0..3 over 16 symbols",
+            "middle_docs": "0..3 over 6 symbols" if tier == "quick" else "0..3 over 16 symbols",
             "payloads": len(PAYLOADS),
             "start_stop_payload_pairs": len(PAIRS_QUICK if tier == "quick" else PAIRS_THOROUGH),
             "writer_configurations": len(JW_CONFIGS) + len(JL_CONFIGS),
@@ -65,7 +65,7 @@ def describe(tier):
     }
 
 
-MIDDLE_PAYLOADS_QUICK = (1, 2, 4, 5)
+MIDDLE_PAYLOADS_QUICK = (1, 2, 4)
 
 
 def _symbols(tier):
@@ -83,6 +83,9 @@ def items(tier, seed):
         out.append({"tier": tier, "ps": ps, "pe": pe, "first": None})  # middle length 0, 1
         for first in range(nsym):
             out.append({"tier": tier, "ps": ps, "pe": pe, "first": first})  # middle length 2, 3 starting with `first`
+    import gc
+
+    gc.freeze()  # keep the forked workers' collector off the parent's heap (fewer copy-on-write faults)
     return out
 
 
@@ -104,37 +107,39 @@ def _read(path):
 
 
 def check_json_array(path, docs):
-    """-> None or (rule, detail)"""
-    if not os.path.exists(path):
-        return "file-missing", f"{os.path.basename(path)} does not exist"
-    text = _read(path)
+    """-> (None or (rule, detail), file text)"""
+    try:
+        text = _read(path)
+    except FileNotFoundError:
+        return ("file-missing", f"{os.path.basename(path)} does not exist"), ""
     try:
         data = json.loads(text)
     except ValueError as e:
-        return "file-not-json", f"{e}; file text {text[:300]!r}"
+        return ("file-not-json", f"{e}; file text {text[:300]!r}"), text
     if data != records(docs):
-        return "records-differ", f"parsed {str(data)[:300]} expected {str(records(docs))[:300]}"
-    return None
+        return ("records-differ", f"parsed {str(data)[:300]} expected {str(records(docs))[:300]}"), text
+    return None, text
 
 
 def check_json_lines(path, before_text, all_records):
-    if not os.path.exists(path):
-        return "file-missing", f"{os.path.basename(path)} does not exist"
-    text = _read(path)
+    try:
+        text = _read(path)
+    except FileNotFoundError:
+        return ("file-missing", f"{os.path.basename(path)} does not exist"), ""
     if not text.startswith(before_text):
-        return "earlier-content-changed", f"file no longer starts with the {len(before_text)} characters it held before"
+        return ("earlier-content-changed", f"file no longer starts with the {len(before_text)} characters it held before"), text
     if text and not text.endswith("\n"):
-        return "last-line-unterminated", repr(text[-80:])
+        return ("last-line-unterminated", repr(text[-80:])), text
     lines = text.split("\n")[:-1] if text else []
     parsed = []
     for i, ln in enumerate(lines):
         try:
             parsed.append(json.loads(ln))
         except ValueError as e:
-            return "line-not-json", f"line {i}: {e}; {ln[:200]!r}"
+            return ("line-not-json", f"line {i}: {e}; {ln[:200]!r}"), text
     if parsed != all_records:
-        return "records-differ", f"{len(parsed)} lines parsed, expected {len(all_records)} records; first difference at {next((i for i, (a, b) in enumerate(zip(parsed, all_records)) if a != b), min(len(parsed), len(all_records)))}"
-    return None
+        return ("records-differ", f"{len(parsed)} lines parsed, expected {len(all_records)} records; first difference at {next((i for i, (a, b) in enumerate(zip(parsed, all_records)) if a != b), min(len(parsed), len(all_records)))}"), text
+    return None, text
 
 
 def run_case(tmp, n, ps, middle, pe):
@@ -181,11 +186,11 @@ def run_case(tmp, n, ps, middle, pe):
             path = os.path.join(tmp, str(w.filename))
             if path not in created:
                 created.append(path)
-            rc = check_json_array(path, run)
+            rc, text = check_json_array(path, run)
             if rc:
                 viol("JSONWriter", config, run_no, rc)
                 break
-            if run_no == 1 and "\\" in _read(path):
+            if "\\" in text:
                 escaped = True
     # ---- JSONLinesWriter
     for config in JL_CONFIGS:
@@ -212,21 +217,16 @@ def run_case(tmp, n, ps, middle, pe):
             if path not in created:
                 created.append(path)
             recs = recs + records(run)
-            rc = check_json_lines(path, before, recs)
+            rc, text = check_json_lines(path, before, recs)
             if rc:
                 viol("JSONLinesWriter", config, run_no, rc)
                 break
-            before = _read(path)
+            before = text
     for p in created:
         try:
             os.remove(p)
         except FileNotFoundError:
             pass
-    left = os.listdir(tmp)
-    if left:  # a writer wrote somewhere unexpected: report it rather than let files pile up
-        vs.append({"rule": "unexpected-files", "detail": f"files left behind: {left[:5]}", "signature": f"unexpected-files|{shape}", "case": case})
-        for p in left:
-            os.remove(os.path.join(tmp, p))
     return vs, len(JW_CONFIGS) + len(JL_CONFIGS), ops, escaped
 
 
